@@ -367,6 +367,150 @@ fn parse_op(s: &str) -> Op {
     crate::report::machinery("bad op in replay file")
 }
 
+/// The operations that create key containers themselves: after key_encrypt / key_decrypt have returned, no heap block
+/// they allocated and left alive may still hold the payload key the library generated (recovered from the file by REF),
+/// the sender's or the recipient's private key. A container that is never dropped is never wiped.
+fn operations_leave_nothing(rep: &Report) {
+    use crate::refspec as r;
+    use crate::streams::*;
+    let ids = idents(rep.seed);
+    let scan = |live: &[(usize, usize)], needle: &[u8; 32]| -> Option<(usize, usize)> {
+        for &(a, n) in live {
+            if n >= 32 {
+                let sl = unsafe { std::slice::from_raw_parts(a as *const u8, n) };
+                if let Some(off) = sl.windows(32).position(|w| w == needle) {
+                    return Some((n, off));
+                }
+            }
+        }
+        None
+    };
+    for l in [0usize, 100, 70000] {
+        for auto_payload in [true, false] {
+            rep.eval(2);
+            rep.nontrivial(format!("ops-{}-{}", l, auto_payload).as_bytes());
+            let p = plaintext(rep.seed ^ 0x20, l);
+            let pay = derive32(rep.seed, "c20-ops-pay");
+            let enc = Subject::KeyEnc { s: hx(&ids[0].sk), s_pub: hx(&ids[0].pk), r_pub: hx(&ids[2].pk), e: String::new(), payload: if auto_payload { String::new() } else { hx(&pay) } };
+            let mut file: Vec<u8> = Vec::with_capacity(l + 4096);
+            let (res, live, overflow) = crate::mon::tracked(|| {
+                let mut src = &p[..];
+                run_rw(&enc, &mut src, &mut file)
+            });
+            let case = json!({"kind":"operations","op":"key_encrypt","len":l,"payload_left_to_library":auto_payload});
+            if overflow {
+                crate::report::machinery("allocation tracking table overflowed in C20 operations");
+            }
+            if !res.is_ok() {
+                rep.violation("operations/encrypt-failed", case, res.brief());
+                continue;
+            }
+            let kf = match r::read_key_file(&ids[2].sk, &file) {
+                Ok(k) => k,
+                Err(e) => {
+                    rep.violation("operations/not-conforming", case, format!("{:?}", e));
+                    continue;
+                }
+            };
+            for (what, needle) in [("the payload key", kf.payload_key), ("the sender's private key", ids[0].sk)] {
+                if let Some((n, off)) = scan(&live, &needle) {
+                    rep.violation("operations/key-left-in-live-heap-after-encrypt", case.clone(), format!("after key_encrypt returned, a {}-byte heap block it allocated is still alive and holds {} at offset {} (never dropped, hence never wiped)", n, what, off));
+                }
+            }
+            // decrypt
+            let dec = Subject::KeyDec { r: hx(&ids[2].sk), r_pub: hx(&ids[2].pk) };
+            let mut out: Vec<u8> = Vec::with_capacity(l + 4096);
+            let (res, live, overflow) = crate::mon::tracked(|| {
+                let mut src = &file[..];
+                run_rw(&dec, &mut src, &mut out)
+            });
+            let case = json!({"kind":"operations","op":"key_decrypt","len":l});
+            if overflow {
+                crate::report::machinery("allocation tracking table overflowed in C20 operations");
+            }
+            if !res.is_ok() {
+                rep.violation("operations/decrypt-failed", case, res.brief());
+                continue;
+            }
+            for (what, needle) in [("the payload key", kf.payload_key), ("the recipient's private key", ids[2].sk)] {
+                if let Some((n, off)) = scan(&live, &needle) {
+                    rep.violation("operations/key-left-in-live-heap-after-decrypt", case.clone(), format!("after key_decrypt returned, a {}-byte heap block it allocated is still alive and holds {} at offset {}", n, what, off));
+                }
+            }
+        }
+    }
+}
+
+/// Process level: when the command-line program ends — normally, with an error, or because its output pipe broke — the
+/// unlocked private key must not be left in its heap. An LD_PRELOAD monitor (harness/rngshim) searches the writable heap
+/// mappings for the raw key at exit() and reports hits. (A process killed by a signal runs no exit handlers: no verdict.)
+fn cli_exit_scan(rep: &Report) {
+    use crate::fx::Party;
+    use crate::proc::{self, Cmd, Scratch};
+    use crate::refspec as r;
+    let seed = rep.seed;
+    let shim = crate::c07::RNG_SHIM;
+    if !std::path::Path::new(shim).exists() {
+        crate::report::machinery("exit-scan shim not built");
+    }
+    let alice = Party::new(seed, "alice", "alicepw");
+    let bob = Party::new(seed, "bob", "bobpw");
+    let kr = crate::fx::keyring(&[(&alice, true), (&bob, true)]);
+    let p = plaintext(seed ^ 0x21, 200_000);
+    let f = r::write_key_file(&alice.sk, &bob.pk, &derive32(seed, "c20-cli-e"), &derive32(seed, "c20-cli-p"), &p, &[65536, 65536, 65536, 3392]).unwrap();
+    let mut bad = f.clone();
+    let n = bad.len();
+    bad[n - 5] ^= 1;
+    // (name, args, password, stdout closed?, expect exit 0?)
+    let cases: Vec<(&str, Vec<&str>, &str, bool)> = vec![
+        ("encrypt-to-file", vec!["encrypt", "plain.bin", "-t", "bob", "-f", "alice", "-k", "kr.txt", "-o", "out.bin", "--env-pass"], "alicepw", false),
+        ("decrypt-to-file", vec!["decrypt", "ct.ktl", "-t", "bob", "-k", "kr.txt", "-o", "out.bin", "--env-pass"], "bobpw", false),
+        ("encrypt-to-closed-pipe", vec!["encrypt", "plain.bin", "-t", "bob", "-f", "alice", "-k", "kr.txt", "--env-pass"], "alicepw", true),
+        ("decrypt-to-closed-pipe", vec!["decrypt", "ct.ktl", "-t", "bob", "-k", "kr.txt", "--env-pass"], "bobpw", true),
+        ("decrypt-damaged-last-chunk", vec!["decrypt", "bad.ktl", "-t", "bob", "-k", "kr.txt", "-o", "out.bin", "--env-pass"], "bobpw", false),
+        ("encrypt-output-dir-missing", vec!["encrypt", "plain.bin", "-t", "bob", "-f", "alice", "-k", "kr.txt", "-o", "nodir/out.bin", "--env-pass"], "alicepw", false),
+        ("encrypt-to-dev-full", vec!["encrypt", "plain.bin", "-t", "bob", "-f", "alice", "-k", "kr.txt", "-o", "/dev/full", "--env-pass"], "alicepw", false),
+        ("extract-pub", vec!["key", "extract-pub", &alice.locked, "--env-pass"], "alicepw", false),
+    ];
+    use rayon::prelude::*;
+    cases.par_iter().for_each(|(name, args, pw, closed)| {
+        rep.eval(1);
+        rep.nontrivial(format!("cli-exit-scan-{}", name).as_bytes());
+        let attempt = || -> Result<(), String> {
+            let sc = Scratch::new();
+            sc.write("kr.txt", kr.as_bytes());
+            sc.write("plain.bin", &p);
+            sc.write("ct.ktl", &f);
+            sc.write("bad.ktl", &bad);
+            let log = sc.path("scan.log");
+            let mut c = Cmd::new(args).env("KESTREL_PASSWORD", pw).env("LD_PRELOAD", shim).env("KV_SCAN_HEX", &format!("{},{}", hx(&alice.sk), hx(&bob.sk))).env("KV_SCAN_LOG", log.to_str().unwrap());
+            c.stdout_closed_pipe = *closed;
+            let out = proc::run(&c, &sc.0);
+            if out.signal.is_some() || out.timed_out {
+                return Ok(()); // no exit handlers ran: nothing observed
+            }
+            let text = String::from_utf8_lossy(&std::fs::read(&log).unwrap_or_default()).to_string();
+            if !text.contains("scan-done") {
+                return Err(format!("MACHINERY: the exit-time monitor did not run ({}): {:?}", out.summary(), text));
+            }
+            let hits: Vec<&str> = text.lines().filter(|l| l.starts_with("hit")).collect();
+            if !hits.is_empty() {
+                return Err(format!("the process ended (exit status {:?}) with the raw private key still in its heap: {} hit(s), first: {} (secret 0 = sender alice, 1 = recipient bob)", out.code, hits.len(), hits[0]));
+            }
+            Ok(())
+        };
+        if let Err(e) = attempt() {
+            if e.starts_with("MACHINERY") {
+                crate::report::machinery(&e);
+            }
+            if let Err(e2) = attempt() {
+                rep.violation(&format!("cli-exit/{}", name), json!({"kind":"cli-exit","name":name}), format!("kestrel {}: {}", name, e2));
+            }
+        }
+    });
+    rep.extra("cli_exit_scan_cases", json!(cases.len()));
+}
+
 pub fn run(rep: &'static Report) {
     rep.set_rule("E-GRAPH over programs: breadth-first search (stateright) over all programs of <= 4 (quick) / 5 (thorough) operations on 3 slots from {PrivateKey::try_from, PrivateKey::generate, PayloadKey::new (8-aligned box and odd address), clone, clone_from, drop, drop during panic unwinding, pass to noise_encrypt} with two key values (one containing zero bytes); every program is executed from scratch on the real containers (boxed, so the secret bytes always live in a heap block) under an allocator that copies the watched 32 bytes at the moment their block is deallocated. distinct non-trivial = programs that drop at least one instance");
     rep.assume("copies left on the stack by moves and non-container temporaries are out of scope (the property is about the containers); erasure is observed as far as this build profile (release) performs it");
@@ -388,6 +532,8 @@ pub fn run(rep: &'static Report) {
     if rep.violation_count() == 0 && (d == 0 || d != e) {
         crate::report::machinery(&format!("vacuous run: {} drops, {} release events", d, e));
     }
+    operations_leave_nothing(rep);
+    cli_exit_scan(rep);
     // Supplementary, NOT exhaustive (sampling, labelled as such): the containers contain no synchronisation operation, so there
     // is no interleaving space for a controlled scheduler; this free-running pass drops an original and its clone at the same
     // moment on two threads and inspects the released memory (a shared/ref-counted representation would race here).
@@ -457,6 +603,14 @@ pub fn run(rep: &'static Report) {
 }
 
 pub fn replay(rep: &'static Report, case: &Value) {
+    if case["kind"] == "cli-exit" {
+        cli_exit_scan(rep);
+        return;
+    }
+    if case["kind"] == "operations" {
+        operations_leave_nothing(rep);
+        return;
+    }
     if case["kind"] == "concurrent" {
         println!("  re-running C20 (the concurrent pass is sampling; its verdict may need several runs)");
         run(rep);
